@@ -586,7 +586,8 @@ def check(run):
         "given as a library object built beforehand under allow_custom=True with and without custom content, bundle members "
         "of unregistered types declared by an extension definition, specification-defined properties inside the "
         "constructor's custom_properties= argument, a toplevel-property-extension registered in the worker with declared / "
-        "undeclared / orphaned properties), six sampled sites; unregistered top-level types and bundle members with "
+        "undeclared / orphaned properties, custom content inside the values of its declared properties, and a second "
+        "registered one with an object carrying both made beforehand), six sampled sites; unregistered top-level types and bundle members with "
         "extensions of every shape; observable types registered only after they were looked up (parse_observable, parse, "
         "observed-data member) against a type registered up front; observables also through parse_observable; six sampled sites "
         "for the others; each case under allow_custom False and True plus the strict reparse of the allow-mode "
